@@ -212,7 +212,79 @@ def _region(label, s, out, e=None):
     return None
 
 
+def _hang_screen(ctx):
+    """prompt termination on SHORT adversarial inputs (a regular expression that backtracks exponentially hangs on a
+    few dozen characters): every entry point on runs of a unit followed by a character that makes the match fail,
+    in a child process that is killed when one input takes longer than the limit"""
+    import os
+    import subprocess
+    import sys
+    import threading
+    limit = 10.0
+    units = ["a", "1", "1.", "1-", "a1", "-a", ".a", "a.", "1a", "a-", "0", "x", "_p", "~", "+a", ".0"]
+    jobs = []
+    for kind, label, scheme, fn in entry_points():
+        if label.startswith(("github:", "snyk:")) and scheme not in ("npm", "maven", "gem", "pypi"):
+            continue
+        head = "vers:%s/" % (scheme or "npm") if kind == "vers" else ""
+        for u in units:
+            for n in ((24, 40) if not ctx.thorough else (24, 32, 48, 64)):
+                for pre in ("", "1-", "1.", ">=1."):
+                    for suf in ("!", "", " x", "-", "+"):
+                        jobs.append((label, head + pre + u * n + suf))
+    env = dict(os.environ, PYTHONPATH=str(common.SRC))
+    p = subprocess.Popen([sys.executable, str(common.VERIF / "harness" / "timing_probe.py")], stdin=subprocess.PIPE,
+                         stdout=subprocess.PIPE, stderr=subprocess.DEVNULL, text=True, env=env)
+    state = {"begun": 0, "ended": 0, "t": time.time(), "slow": None}
+
+    def feed():
+        try:
+            for label, s in jobs:
+                p.stdin.write("%s\t%s\n" % (label, s.encode("utf-8").hex()))
+            p.stdin.close()
+        except Exception:  # noqa: BLE001
+            pass
+
+    def read():
+        for line in p.stdout:
+            parts = line.split()
+            if parts[0] == "BEGIN":
+                state["begun"] = int(parts[1])
+                state["t"] = time.time()
+            elif parts[0] == "END":
+                state["ended"] = int(parts[1])
+                if float(parts[2]) > limit / 2 and state["slow"] is None:
+                    state["slow"] = (int(parts[1]), float(parts[2]))
+    tf = threading.Thread(target=feed, daemon=True)
+    tr = threading.Thread(target=read, daemon=True)
+    tf.start()
+    tr.start()
+    hung = None
+    while tr.is_alive():
+        tr.join(0.5)
+        if state["begun"] > state["ended"] and time.time() - state["t"] > limit:
+            hung = state["begun"]
+            p.kill()
+            break
+    p.wait()
+    st = ctx.stream("termination-screen")
+    st["evaluations"] += state["ended"]
+    st["distinct_nontrivial"] += state["ended"]
+    ctx.evaluations += state["ended"]
+    bad = hung or (state["slow"][0] if state["slow"] else None)
+    if bad:
+        label, s = jobs[bad - 1]
+        took = "more than %.0f s (killed)" % limit if hung else "%.1f s" % state["slow"][1]
+        ctx.disagree("termination-screen", "%s on %d characters" % (label, len(s)), took, "prompt", True,
+                     {"entry_point": label, "text": s, "length": len(s),
+                      "clause": "%s takes %s on %d characters" % (label, took, len(s)),
+                      "python": "see entry point %s on %r" % (label, s)}, spec="terminates promptly")
+
+
 def _timing(ctx):
+    _hang_screen(ctx)
+    if ctx.rep.violations:
+        return          # the scaling probes below would sit on the same input
     kmax = 15 if ctx.thorough else 12
     shapes = {
         "version": ["1.", "1-", "0", "a1", "1~", "1_p", ".", "1+"],
